@@ -356,7 +356,12 @@ def Cover.add (c : Cover) (x y z : Nat) : Cover :=
   | some none => c.set z (some ⟨z, x, y, x, y⟩)
   | some (some b) => c.set z (some ⟨z, min b.xmin x, min b.ymin y, max b.xmax x, max b.ymax y⟩)
 
-/-- the `for i in 0..run_length` loop of `parse_directories` -/
+/-- coverage of one run `[id, id + run_length)` in `parse_directories`.  Specification form: every tile id
+    of the run is decoded and included (this was the literal `for i in 0..run_length` loop until /repo
+    0189261d; since then `include_run` cuts the run into aligned blocks of 4^k Hilbert ids and includes the two
+    corners of each block's square — the same per-level bounding boxes and the same errors: id overflow and
+    ids beyond level 31 are `Err`).  The model is evaluated tile by tile, so the driver is only fed runs of
+    moderate length. -/
 def coverRun (c : Cover) (id : Nat) : Nat → Outcome Cover
   | 0 => .ok c
   | n + 1 =>
